@@ -2,3 +2,7 @@
 import Iota.Driver.All
 import Iota.Tie.C14
 import Iota.Props.C14
+import Iota.Tie.C10
+import Iota.Props.C10
+import Iota.Tie.C15
+import Iota.Props.C15
